@@ -65,6 +65,7 @@ type KittyImage struct {
 	id       uint64
 	w        int
 	h        int
+	version  int
 	uploaded int32
 	encoding int32
 	buf      *bytes.Buffer
@@ -111,6 +112,7 @@ func (k *KittyImage) Draw(win Window) {
 		id:       k.id,
 		w:        k.w,
 		h:        k.h,
+		version:  k.version,
 		writeTo:  writeFunc,
 		deleteFn: deleteFunc,
 	}
@@ -145,6 +147,9 @@ func (k *KittyImage) Resize(w int, h int) {
 	if max.Y%cellPixH != 0 {
 		k.h += 1
 	}
+	// Placements of the previous encoding have to be made again:
+	// uploading an image again removes them from the terminal
+	k.version += 1
 
 	atomicStore(&k.encoding, true)
 	go func() {
@@ -185,6 +190,7 @@ type Sixel struct {
 	id       uint64
 	w        int
 	h        int
+	version  int
 	encoding int32
 }
 
@@ -232,6 +238,7 @@ func (s *Sixel) Draw(win Window) {
 		id:       s.id,
 		w:        s.w,
 		h:        s.h,
+		version:  s.version,
 	}
 	s.vx.graphicsNext = append(s.vx.graphicsNext, placement)
 }
@@ -246,6 +253,8 @@ func (s *Sixel) Destroy() {
 // separate gorotuine. A Redraw event will be posted when complete
 func (s *Sixel) Resize(w int, h int) {
 	atomicStore(&s.encoding, true)
+	// The placement of the previous encoding has to be painted again
+	s.version += 1
 	go func() {
 		defer atomicStore(&s.encoding, false)
 		// Resize the image
@@ -311,11 +320,13 @@ type placement struct {
 	id       uint64
 	w        int
 	h        int
+	// version counts the encodings of the image (see Resize)
+	version int
 }
 
 // samePlacement compares two placements for equality. Two placements are
-// considered equal if it is the same image, with the same size, at the same
-// location
+// considered equal if it is the same image, in the same encoding, with the
+// same size, at the same location
 func samePlacement(p1, p2 *placement) bool {
 	if p1.id != p2.id {
 		return false
@@ -330,6 +341,9 @@ func samePlacement(p1, p2 *placement) bool {
 		return false
 	}
 	if p1.h != p2.h {
+		return false
+	}
+	if p1.version != p2.version {
 		return false
 	}
 	return true
